@@ -5,6 +5,7 @@ import GoNfsd.Driver.Codec
 import GoNfsd.Driver.Kvs
 import GoNfsd.Driver.Simple
 import GoNfsd.Driver.Locks
+import GoNfsd.Driver.Wal
 
 def main (args : List String) : IO UInt32 :=
   match args with
@@ -15,6 +16,7 @@ def main (args : List String) : IO UInt32 :=
   | ["kvs"] => GoNfsd.Driver.Kvs.main
   | ["simple"] => GoNfsd.Driver.Simple.main
   | ["locks"] => GoNfsd.Driver.Locks.main
+  | ["wal"] => GoNfsd.Driver.Wal.main
   | _ => do
     IO.eprintln "usage: drv <mkfs>"
     return 2
